@@ -4,12 +4,45 @@ of rank 0..4 with lengths 0..3 against every element count 0..prod+2.  History p
 keeps the previous array), model and implementation compared after every step.  In every run of every property
 the harness additionally asserts len == prod(shape), ndim == shape.len(), is_empty == (len == 0),
 elements.len() == len on every array it prints (the universal monitor: a violation prints `!wf(...)`, which
-no model output can equal)."""
+no model output can equal).  Surface sweep: a random sample of the cases of every other property whose generator
+drives the main harness binary (C02-C17, C19, C20) is run once more here, so that the monitor and the
+model/implementation comparison cover the whole modelled surface inside the C01 check itself."""
 import itertools
 from common import *
 import opspec
 
+import importlib
+
 EXHAUSTIVE = True
+SWEEP = ["C02", "C03", "C04", "C05", "C06", "C07", "C08", "C10", "C11", "C12", "C13", "C14", "C16", "C17", "C19", "C20"]
+_origin = {}
+
+
+class _Harvested(Exception):
+    pass
+
+
+def _harvest(mod, seed):
+    """the (first-round) case lines of another property's generator"""
+    if hasattr(mod, "gen"):
+        return list(mod.gen(seed, "quick"))
+    got = []
+
+    def rec(lines):
+        got.extend(lines)
+        raise _Harvested()
+    try:
+        mod.gen_rounds(seed, "quick", rec)
+    except _Harvested:
+        pass
+    return got
+
+
+def agree(case, impl, model):
+    m = _origin.get(case)
+    hook = getattr(m, "agree", None) if m else None
+    return hook(case, impl, model) if hook else None
+
 BOUNDS = "new/create/reshape: all shapes rank 0..4 lengths 0..3 x element counts 0..prod+2"
 
 
@@ -47,7 +80,7 @@ def gen_rounds(seed, tier, run):
             break
         lines = []
         for h in live:
-            call = opspec.rand_call(rng, h["sh"])
+            call = opspec.rand_call(rng, h["sh"], h["ty"], h.get("maxabs", 0))
             name, _, rest = call.partition(" ")
             lines.append(f"{name}@{h['ty']} " + rest.replace("{a}", h["tok"]))
         impl, model = run(lines)
@@ -55,3 +88,33 @@ def gen_rounds(seed, tier, run):
             r = opspec.parse_arr_result(im)
             if r is not None and prod(r[0]) <= 400:
                 h["sh"], h["tok"] = r
+                if h["ty"] != "str":
+                    body = r[1].partition(":")[2]
+                    h["maxabs"] = max([abs(int(x)) for x in body.split(",") if x] or [0])
+    # operator traits on unequal shapes (broadcast-compatible or not) must refuse; they never yield an array
+    ops = []
+    small_shapes = [[1], [2], [3], [1, 1], [1, 2], [2, 1], [2, 2], [1, 3], [2, 3], [3, 1], [2, 1, 3], [2, 4, 3], [1, 2, 2]]
+    for s1 in small_shapes:
+        for s2 in small_shapes:
+            if s1 == s2:
+                continue
+            for o in range(8):
+                ty = "i32" if o < 5 else rng.choice(["u8", "bool", "i32"])
+                e1, e2 = [1] * prod(s1), [1] * prod(s2)
+                ops.append(f"op2@{ty} z{o} {arr(s1, e1)} {arr(s2, e2)}")
+                if o < 5 or rng.random() < 0.5:
+                    ops.append(f"op2a@{ty} z{o} {arr(s1, e1)} {arr(s2, e2)}")
+    run(ops)
+    # surface sweep
+    per = 250 if tier == "quick" else 3000
+    sweep = []
+    for p in SWEEP:
+        m = importlib.import_module(p)
+        lines = _harvest(m, seed)
+        # operations with an open known finding (F11 hstack, F15 matmul/dot) are decided by their own property's check
+        lines = [l for l in lines if l.split(" ")[0].split("@")[0] not in ("hstack", "matmul", "dot")]
+        for l in rng.sample(lines, min(per, len(lines))):
+            if l not in _origin:
+                _origin[l] = m
+                sweep.append(l)
+    run(sweep)
